@@ -144,22 +144,55 @@ Definition syminfo_get_symbol (img : list Z) (c : symcfg) (s : seccfg) (n : Z) :
 Definition syminfo_iter_symbols (img : list Z) (c : symcfg) (s : seccfg) : res (list symbol) :=
   mapM (syminfo_get_symbol img c s) (py_range 1 (syminfo_num_symbols s + 1)).
 
+(* ------------------------------------------------------------------ the stream cursor, explicit.
+   The file object is shared by every section of the ELFFile and by the consumer: between two calls,
+   and between two next() of a generator, anything may have moved it.  [cur] is the cursor a call (or a
+   generator step) starts with.
+   struct_parse(struct, stream, stream_pos=None):  if stream_pos is not None: stream.seek(stream_pos);
+   then the struct is read at the cursor. *)
+Definition struct_parse_stream (L : layout) (img : list Z) (cur : Z) (stream_pos : option Z)
+  : res (list (string * fval)) :=
+  struct_parse_at L img (match stream_pos with Some p => p | None => cur end).
+
+(* parse_cstring_from_stream(stream, stream_pos=None): same convention *)
+Definition parse_cstring_stream (img : list Z) (cur : Z) (stream_pos : option Z) : option (list Z) :=
+  parse_cstring_at img (Z.to_nat (match stream_pos with Some p => p | None => cur end)).
+
+(* SymbolTableSection.get_symbol(n) started with the cursor at [cur]: both reads pass stream_pos *)
+Definition get_symbol_cur (img : list Z) (c : symcfg) (cur : Z) (n : Z) : res symbol :=
+  let entry_offset := s_off (c_sec c) + n * s_entsize (c_sec c) in
+  let L := gen_Elf_Sym (c_le c) (c_is64 c) in
+  do entry <- struct_parse_stream L img cur (Some entry_offset);
+  (* the struct read leaves the cursor behind the entry; the string read seeks again *)
+  let cur1 := entry_offset + match layout_size L with Some sz => Z.of_nat sz | None => 0 end in
+  let name := match parse_cstring_stream img cur1 (Some (c_stroff c + rec_z entry "st_name")) with
+              | Some s => s | None => [] end in
+  Ok (name, entry_fields entry).
+
 (* ------------------------------------------------------------------ the section object as a state machine.
    SymbolTableSection has ONE mutable attribute, self._symbol_name_map (None until the first
-   get_symbol_by_name).  A history is any sequence of calls on one object. *)
+   get_symbol_by_name); every generator returned by iter_symbols() has its own position.  A history is
+   any sequence of calls on one object and on its generators, each started at an arbitrary cursor. *)
 Definition memo := option (list (list Z * list Z)).
+Definition gens := list (Z * Z).              (* generator id -> index of the entry its next step yields *)
+Fixpoint gen_pos (gs : gens) (g : Z) : Z :=
+  match gs with [] => 0 | (k, j) :: r => if (k =? g)%Z then j else gen_pos r g end.
+Definition gen_set (gs : gens) (g j : Z) : gens := (g, j) :: gs.
 
 Inductive symop :=
 | OpNum                      (* num_symbols() *)
 | OpGet (n : Z)              (* get_symbol(n) *)
-| OpIter (k : Z)             (* g = iter_symbols(); next(g) up to k times; then the generator is abandoned / closed *)
-| OpByName (q : list Z).     (* get_symbol_by_name(q) *)
+| OpIter (k : Z)             (* g = iter_symbols(); next(g) up to k times in one go; then g is abandoned / closed *)
+| OpByName (q : list Z)      (* get_symbol_by_name(q) *)
+| OpNext (g : Z).            (* next(G) on the generator G = iter_symbols() number g (created on first use; a
+                                generator body does not run before its first next) *)
 
 Inductive symobs :=
 | ObsNum (z : Z)
 | ObsSym (r : res symbol)
 | ObsSyms (r : res (list symbol))
-| ObsByName (r : res (option (list symbol))).
+| ObsByName (r : res (option (list symbol)))
+| ObsStop.                   (* StopIteration *)
 
 (* a generator over  for i in range(self.num_symbols()): yield self.get_symbol(i)  consumed k times:
    the first min(k, num_symbols) symbols; it touches no attribute of the section *)
@@ -195,17 +228,30 @@ Definition get_symbol_by_name_st (img : list Z) (c : symcfg) (m : memo) (name : 
        end)
   end.
 
-Definition sym_step (img : list Z) (c : symcfg) (st : memo) (op : symop) : memo * symobs :=
+(* one call, started with the stream cursor at [cur] *)
+Definition sym_step (img : list Z) (c : symcfg) (cur : Z) (st : memo * gens) (op : symop)
+  : (memo * gens) * symobs :=
+  let (m, gs) := st in
   match op with
   | OpNum => (st, ObsNum (num_symbols c))
-  | OpGet n => (st, ObsSym (get_symbol img c n))
+  | OpGet n => (st, ObsSym (get_symbol_cur img c cur n))
   | OpIter k => (st, ObsSyms (iter_symbols_prefix img c k))
-  | OpByName q => let (st', r) := get_symbol_by_name_st img c st q in (st', ObsByName r)
+  | OpByName q => let (m', r) := get_symbol_by_name_st img c m q in ((m', gs), ObsByName r)
+  | OpNext g =>
+      let j := gen_pos gs g in
+      if (j <? num_symbols c)%Z then
+        let r := get_symbol_cur img c cur j in
+        (* an exception inside the generator finishes it *)
+        ((m, gen_set gs g (match r with Ok _ => j + 1 | Err _ => num_symbols c end)), ObsSym r)
+      else (st, ObsStop)
   end.
 
-Fixpoint sym_run (img : list Z) (c : symcfg) (st : memo) (ops : list symop) : memo * list symobs :=
+(* a history; [adv t] is the stream cursor when call number t starts: whatever the consumer and the
+   other sections of the file did to the stream since the previous call *)
+Fixpoint sym_run (img : list Z) (c : symcfg) (adv : Z -> Z) (t : Z) (st : memo * gens) (ops : list symop)
+  : (memo * gens) * list symobs :=
   match ops with
   | [] => (st, [])
-  | op :: r => let (st', o) := sym_step img c st op in
-               let (st'', os) := sym_run img c st' r in (st'', o :: os)
+  | op :: r => let (st', o) := sym_step img c (adv t) st op in
+               let (st'', os) := sym_run img c adv (t + 1) st' r in (st'', o :: os)
   end.
